@@ -96,6 +96,19 @@ def _stmt(node, level, where):
             h = node.handlers[0]
             if isinstance(h.type, ast.Name) and h.type.id == "Exception":
                 return "TryExcept (%s) (%s)" % (body, _block(h.body, level, where, excname=h.name))
+        if len(node.handlers) == 2 and not node.finalbody:
+            # try: B  except asyncio.CancelledError: <release>; raise  except Exception [as e]: H
+            # The model has no cancellation outcome, so the first handler is never taken there: the statement means
+            # TryExcept B H.  It is accepted only in exactly this form — the handler names asyncio.CancelledError, ends in a
+            # bare raise (the cancellation goes through unchanged) and what precedes is a sequence of release calls that
+            # translates and contains both closes; the cancellation scenarios (oracle) judge what it does.
+            hc, h = node.handlers
+            if _attr_path(hc.type) == ["asyncio", "CancelledError"] and hc.name is None and hc.body and \
+                    isinstance(hc.body[-1], ast.Raise) and hc.body[-1].exc is None and \
+                    isinstance(h.type, ast.Name) and h.type.id == "Exception":
+                rel = _block(hc.body[:-1], level, where + " (cancelled)")
+                if "TClose" in rel and "CClose" in rel:
+                    return "TryExcept (%s) (%s)" % (body, _block(h.body, level, where, excname=h.name))
         raise Unknown("%s: try statement shape" % where)
     if isinstance(node, ast.Raise) and level == "c":
         e = node.exc
